@@ -32,7 +32,8 @@ CLAIMED['C04'] = dict(
          'the modifier table in table order, every special format, every '
          'method-format name, C formats, size/etc, null/missing; and no '
          'html-escaping operation is applied to already escaped tainted '
-         'text. Not decided: taint of values manufactured inside user '
+         'text; comprehensions, any()/all() and container concatenation '
+         'are interpreted. Not decided: taint of values manufactured inside user '
          'expressions; TaintedBytes; what AccessControl taints.',
     ref='4 C04, 3.4, App. C',
     note='library model read from AccessControl/tainted.py and a frozen '
@@ -50,8 +51,12 @@ CLAIMED['C06'] = dict(
          'caught exceptions are not destructured; every located error '
          'pairs a tag with that tag\'s own offset; call-graph cycles '
          '(input-proportional recursion) are enumerated; the tag registry '
-         'resolves. Not decided: rejected iff the grammar is violated; '
-         'progress arithmetic of the scanner loops.',
+         'resolves; the prefix grammar is the anchored regular language '
+         '[A-Za-z][A-Za-z0-9_]* and every prefix-taking tag rejects other '
+         'values; continuation and end tags are classified against the '
+         'opening tag (loop-invariant context). Not decided: rejected iff '
+         'the grammar is violated (as a whole); progress arithmetic of the '
+         'scanner loops.',
     ref='4 C06, 3.5, 3.6',
     note='compile phase = reachable from String.cook and the registry '
          'constructors in the resolved call graph; Python re is a '
@@ -83,7 +88,8 @@ CLAIMED['C09'] = dict(
          'dict, pushed before the loop, popped in finally) before its body '
          'renders; the KeyError guard covers only the lookup and re-raises '
          'foreign keys; the tuples built by if/unless/else/call have the '
-         'shape the interpreter reads; opcodes agree. Not decided: '
+         'shape the interpreter reads and all three commands compile to '
+         'the one conditional interpreter; opcodes agree. Not decided: '
          'truthiness of user values, what user callables do.',
     ref='4 C09, App. B',
     note='anchors located semantically in render_blocks_ (push of a local '
@@ -116,7 +122,10 @@ CLAIMED['C05'] = dict(
          'every cache store on all paths; with guards present expressions '
          'run restricted with _getattr_/_getitem_ bound to the guards and '
          'no builtins; both guards are installed on every namespace built '
-         'while rendering. Not decided: what the guard answers.',
+         'while rendering, and only on namespaces the installing function '
+         'created (a caller\'s guards are never replaced); refused '
+         'elements removed by saved position are removed from the highest '
+         'position down. Not decided: what the guard answers.',
     ref='4 C05',
     note='11 genuine unguarded channels are listed as known findings '
          '(sequence-var-x, first/last-x, statistics, sort keys, tree '
@@ -145,8 +154,12 @@ CLAIMED['C13'] = dict(
          'reverse return fresh lists); every sort of the decorated list is '
          'keyed on the decorated key only (stability); the basic-type '
          'predicate is applied to type(value); the single- and multi-key '
-         'extractors are AST twins (getter, call step, failure handling, '
-         'None handling); asc/desc map to +1/-1, anything else raises, the '
+         'extractors map every kind of key (None / false-but-not-None / '
+         'ordinary / callable, incl. a raising or None-returning callable) '
+         'to the same result -- None and failures to the smallest key, '
+         'false values to themselves, callables to their result -- decided '
+         'by scenario interpretation, plus an AST twin comparison when the '
+         'twin shape is present; asc/desc map to +1/-1, anything else raises, the '
          'comparator multiplies. Not decided: the order produced for '
          'concrete key values, /nocase and locale comparison results.',
     ref='4 C13, App. B',
@@ -177,7 +190,9 @@ CLAIMED['C03'] = dict(
          'modifier, fmt=html-quote) resolves to one function returning '
          'html.escape(value) with quote on and no other rewriting; the '
          'fast path\'s needs-quoting character set covers every character '
-         'the escaper rewrites and its polarity is right; the option name '
+         'the escaper rewrites and its polarity is right (decided by '
+         'interpreting one block iteration for a str with / without a '
+         'tested character: the former always reaches the escaper); the option name '
          'the entity syntax appends equals the option dtml-var accepts, the '
          'simple-form key and the name the modifier loop compares; '
          'modifiers of &dtml.m1.m2-name; become options with the name '
@@ -198,7 +213,13 @@ CLAIMED['C19'] = dict(
          'produced by render_blocks are combined only by join_unicode, '
          'never by +, % or str.join (across function boundaries); '
          'html_quote and join_unicode decode with the encoding they are '
-         'given. Not decided: ustr() on all value types; codec tables.',
+         'given, one piece at a time; the compiler recursion stays on the '
+         'template object (sections are not parsed by their default-'
+         'encoded sub-template); on every path an exception object is '
+         'inserted as its message (0 / 1 / n arguments, scenario '
+         'interpretation); the inserted value is converted only by ustr(), '
+         'never by str()/repr()/format() on the default path. Not decided: '
+         'ustr() on all value types; codec tables.',
     ref='4 C19, App. B',
     note='4 known findings: non-block commands (Var) are constructed '
          'without the encoding and Var.render reaches html_quote without '
@@ -216,7 +237,11 @@ CLAIMED['C17'] = dict(
          'read_raw stores nothing and reads the file; no render code '
          'mutates an object that may alias namespace values, call '
          'arguments or client method results; mutable defaults are never '
-         'mutated. Not decided: equality of outputs across histories.',
+         'mutated; stores through locals and parameters that may be bound '
+         'to an attribute object of a shared tag (followed across calls) '
+         'count as stores to the tag; munge() re-initialises the defaults '
+         'for every given mapping, also an empty one. Not decided: '
+         'equality of outputs across histories.',
     ref='4 C17, App. B',
     note='render phase by resolved reachability plus the per-render helper '
          'classes')
@@ -245,7 +270,9 @@ CLAIMED['C10'] = dict(
          'markers compare with the loop\'s own bounds, sequence-start is '
          'cleared after a rendered element and never on the skip path; '
          'every literal sequence-* key is stored through the prefix-aware '
-         'mapping and both prefix strippers strip exactly "sequence-"; '
+         'mapping and both prefix strippers strip exactly "sequence-"; the '
+         'alias reader strips the stored prefix by its own width and never '
+         'splits the key at a character the prefix grammar allows; '
          'every documented variable and statistic has a provider; an empty '
          'sequence returns the else body (or nothing) before any push; the '
          'per-item push decision is identical in both renderers. Not '
@@ -283,8 +310,11 @@ CLAIMED['C01'] = dict(
          'non-emptiness) or a compiled command; a str/bytes block reaches '
          'the output unchanged and pieces are joined in list order; the '
          'scanner\'s prefix literals match their slice widths and name '
-         'offsets. Not decided: that offsets tile the text, that the '
-         'scanner never claims near-tag text, the concatenation law.',
+         'offsets; the EPFS tag pattern\'s language is included in the tag '
+         'grammar %(name[ args])suffix with balanced quotes and a '
+         'printf-style or block-marker suffix (it claims nothing else). '
+         'Not decided: that offsets tile the text, that the hand-written '
+         'SGML scanner never claims near-tag text, the concatenation law.',
     ref='4 C01, 3.5',
     note='reference language [ \\t]*\\n')
 CLAIMED['C07'] = dict(
@@ -307,17 +337,28 @@ CLAIMED['C07'] = dict(
 CLAIMED['C20'] = dict(
     technique='stage extraction and mirror comparison of the codec '
               'pipelines; arithmetic agreement of chunk constants; AST '
-              'twin comparison of the encoders',
+              'twin comparison of the encoders; path-sensitive push/pop '
+              'balance of the id path; def-use classification of id '
+              'comparisons; handler-scope query',
     text='Narrow: decode_seq applies the inverse stages of encode_seq in '
          'reverse order (ascii, translate, padding, base64, zlib, json), '
          'the two translation tables are inverse, compress/decompress use '
          'one text encoding; encoder chunk a and decoder chunk b satisfy '
          '4a = 3b and each function uses one chunk constant; encode_seq '
-         'and encode_str chunk, strip and translate identically. Not '
-         'decided: state evolution over click histories (apply_diff, row '
-         'rendering), the round trip on all states.',
-    ref='4 C20',
-    note='the expand/collapse half of the property is not claimed')
+         'and encode_str chunk, strip and translate identically; the link '
+         'and cookie parameters written are the ones read back with the '
+         'same meaning. Click-history half, structural necessary '
+         'conditions only: the id path put into the links is a balanced '
+         'stack (own id appended exactly once before the link is built and '
+         'before recursing, removed on every normal exit); the state '
+         'update compares path ids only with state ids (positional walk); '
+         'expand_all confines a failing child to that child; a live '
+         'pruning loop deletes only from the node\'s own child list. Not '
+         'decided: state evolution over click histories as a whole, the '
+         'round trip on all states.',
+    ref='4 C20, 9.2',
+    note='click-history clauses are necessary conditions, not the '
+         'behaviour')
 PENDING = {}
 NA = {
     'C16': 'numerical identities over run-time data (sums, means, n vs n-1, '
